@@ -64,7 +64,12 @@ class Builder:
             base = self.classes[ty['base']]
             nbase = len(base.get_flat_type_info(base))
         own = [(n, self.py_type(t)) for n, t in ty['fields'][nbase:]]
-        c = ComplexModelMeta(str(name), (base,), {'__namespace__': ty.get('ns') or TNS, '_type_info': own})
+        body = {'__namespace__': ty.get('ns') or TNS, '_type_info': own}
+        if ty.get('attrs_of'):
+            # `class Attributes(Other.Attributes)`: the idiom for taking over another model's settings (it also takes over
+            # that model's list of subclasses)
+            body['Attributes'] = type('Attributes', (self.classes[ty['attrs_of']].Attributes,), {})
+        c = ComplexModelMeta(str(name), (base,), body)
         self.classes[name] = c
         return c
 
@@ -119,6 +124,8 @@ class Builder:
             # ge / gt / le / lt for these kinds are outside the shared Lean universe (T3 only): {"rng": {"ge": <Val JSON>}}
             for f, fv in (ty.get('rng') or {}).items():
                 kw[f] = self.to_native({'k': k, 'occ': occ()}, fv)
+            if k == 'dec' and ty.get('td') is not None:
+                return P.Decimal(ty['td'], ty.get('fd') or 0, **kw)         # total_digits, fraction_digits
             return cls(**kw) if kw else cls
         if k == 'bytes':
             enc = ty.get('enc', 'base64')
@@ -179,7 +186,17 @@ class Builder:
         if 'dur' in v:
             return pydt.timedelta(microseconds=int(v['dur']))
         if 'x' in v:
-            return [bytes(v['x'])]
+            # native ByteArray values are sequences of chunks whose concatenation is the value; {"x": .., "chunks": [n, ..]}
+            # presents the same value in chunks of those lengths (a tuple when "tuple" is set)
+            bs = bytes(v['x'])
+            if v.get('chunks') is not None:
+                out, i = [], 0
+                for n in v['chunks']:
+                    out.append(bs[i:i + n])
+                    i += n
+                assert i == len(bs)
+                return tuple(out) if v.get('tuple') else out
+            return [bs]
         if 'e' in v:
             return getattr(self.py_type(dict(ty, occ=occ())), uncps(v['e']))
         if 'dec' in v:
@@ -1342,7 +1359,8 @@ class Case:
 GOOD_FACTS = {'occCount': 'perItem', 'mpNameAnyKey': True, 'nullComplexIsNone': True, 'repeatedScalarFault': True,
               'leafKindFault': True, 'boolCoerced': True, 'utf8Fault': True, 'jsonNullDateOk': True,
               'intFromFloat': True, 'nativeKindFault': True, 'binKindFault': True, 'rawBytesKindFault': True, 'nestedArrayOk': True, 'parseErrorsFault': True, 'binTextValidated': True, 'missingBodyFault': True,
-              'guardPathLocal': True, 'fileFormValidated': True, 'mpBoolPassThrough': [], 'tableUtf8Fault': True}
+              'guardPathLocal': True, 'fileFormValidated': True, 'mpBoolPassThrough': [], 'tableUtf8Fault': True,
+              'bytesJoinBeforeEncode': True, 'retagSubclassChecked': True}
 
 FACT_WHAT = {
     'occCount': 'D09: _doc_to_object counts one occurrence per key, not per item: 3 items pass max_occurs=2 and 2 items '
@@ -1380,6 +1398,11 @@ FACT_WHAT = {
                       'the caller\'s set instead of a copy): an object referenced from two sibling members is written once '
                       'and dropped the second time, an array that holds an object twice is written as null '
                       '(witness: Seg(start=p, end=p, more=[q, r, q]) as a JSON result)',
+    'bytesJoinBeforeEncode': 'a ByteArray value given in several chunks is not encoded as the concatenation of its chunks (base64 chunk by '
+                             'chunk puts "=" padding inside the text): the response does not decode to the returned bytes',
+    'retagSubclassChecked': 'a wrapper key that names a class from the subclass list of the declared class is accepted without checking that it '
+                            'is a subclass: a model whose Attributes class derives from another model\'s Attributes inherits that model\'s '
+                            'list, and user code receives an instance of an unrelated class',
     'mpBoolPassThrough': 'MessagePackDocument / MessagePackRpc constructed with the listed (raw, use_bin_type) read a Boolean with a '
                          'pass-through handler: a str / number / list / map sent for a Boolean reaches user code, also under soft validation',
     'tableUtf8Fault': 'MessagePackDocument(raw=True, use_bin_type=False) reads leaves with the from_bytes handlers: date_from_bytes & co '
@@ -1420,7 +1443,7 @@ FACT_WITNESS = {
     'missingBodyFault': ([['a', {'k': 'int', 'occ': occ()}]], {}, {'f': None}),
 }
 # switches measured by a probe of their own (replayed by name)
-PROBE_FACTS = ('guardPathLocal', 'fileFormValidated', 'mpBoolPassThrough', 'tableUtf8Fault')
+PROBE_FACTS = ('guardPathLocal', 'fileFormValidated', 'mpBoolPassThrough', 'tableUtf8Fault', 'bytesJoinBeforeEncode', 'retagSubclassChecked')
 
 
 PARSE_WITNESSES = [('yaml', b'a: b: c'), ('yaml', b'\x00'), ('yaml', b'*alias'), ('yaml', b'!!python/object:os.system {}'),
@@ -1534,8 +1557,79 @@ def _probe_mp_tables():
     return bytes_table, bool_pass, utf8_bad, obs
 
 
+CHUNK_TY = {'k': 'obj', 'name': 'Blob', 'ns': TNS, 'base': None, 'occ': occ(),
+            'fields': [['b0', {'k': 'bytes', 'enc': 'base64', 'occ': occ()}], ['b1', {'k': 'bytes', 'enc': 'hex', 'occ': occ()}],
+                       ['b2', {'k': 'bytes', 'enc': 'urlsafe', 'occ': occ()}]]}
+CHUNK_WITNESS = {'o': ['Blob', [[n, {'x': [97, 98, 99, 100], 'chunks': [1, 3]}] for n in ('b0', 'b1', 'b2')]]}
+CHUNK_EXPECTED = {'ok': {'b0': 'YWJjZA==', 'b1': '61626364', 'b2': 'YWJjZA=='}}
+
+
+def _probe_chunks():
+    """a ByteArray result given as the chunks [b'a', b'bcd'] (base64, hex, urlsafe members), as a JSON result"""
+    B = Builder()
+    B.register([{'name': 'Blob', 'ns': TNS, 'base': None, 'fields': CHUNK_TY['fields']}])
+    impl = Impl(B, {'args': [], 'ret': CHUNK_TY})
+    r = impl.run(dict(CFG_DEFAULT), dump('json', {'f': {}}), ret=B.native(CHUNK_TY, CHUNK_WITNESS))
+    if r['out'] is None or 'ok' not in r['outcome']:
+        return r.get('resp_crash') or r['outcome']
+    return {'ok': load('json', r['out'])}
+
+
+INT_PLAIN = {'k': 'int', 'kind': 'unbounded', 'r': {}, 'occ': occ()}
+BOOL_PLAIN = {'k': 'bool', 'occ': occ()}
+
+
+def attrs_universe():
+    """D <- S1 <- S2, an unrelated Y, and X whose Attributes class derives from D.Attributes (X is no subclass of D, but
+    X.get_subclasses() lists S1 and S2)"""
+    d = [['d0', INT_PLAIN]]
+    s1 = d + [['s1_f1', STR_PLAIN]]
+    s2 = s1 + [['s2_f2', BOOL_PLAIN]]
+    return [{'name': 'D', 'ns': TNS, 'base': None, 'fields': d}, {'name': 'S1', 'ns': TNS, 'base': 'D', 'fields': s1},
+            {'name': 'S2', 'ns': TNS, 'base': 'S1', 'fields': s2}, {'name': 'Y', 'ns': TNS, 'base': None, 'fields': [['y0', INT_PLAIN]]},
+            {'name': 'X', 'ns': TNS, 'base': None, 'fields': [['x0', STR_PLAIN], ['x1', INT_PLAIN]], 'attrs_of': 'D'}]
+
+
+def model_registry(classdefs):
+    """the registry as the model sees it: a class that inherits a non-empty subclass list through its Attributes gets a
+    placeholder subclass (never named in a document), because the code looks at the wrapper key iff that list is non-empty"""
+    out = []
+    for cd in classdefs:
+        out.append({k: v for k, v in cd.items() if k != 'attrs_of'})
+        if cd.get('attrs_of'):
+            out.append({'name': cd['name'] + '__listed', 'ns': cd['ns'], 'base': cd['name'],
+                        'fields': cd['fields'] + [['zz_listed', INT_PLAIN]]})
+    return out
+
+
+RETAG_WITNESS_DOCS = [{'f': {'x': {'S1': {'d0': 1, 's1_f1': 'a'}}}}, {'f': {'x': {'S2': {'d0': 1}}}}, {'f': {'x': {'S1': {'x0': 'a', 'x1': 2}}}}]
+
+
+def _probe_retag():
+    """f(x: X), ignore_wrappers=False: a wrapper key naming a class of the inherited subclass list has to be refused"""
+    B = Builder()
+    U = attrs_universe()
+    B.register(U)
+    B.universe_fields = {c['name']: c['fields'] for c in U}
+    xt = dict(U[-1], k='obj', occ=occ())
+    impl = Impl(B, {'args': [['x', xt]], 'ret': {'k': 'int', 'occ': occ()}})
+    bad = {}
+    for v in (None, 'soft'):
+        for doc in RETAG_WITNESS_DOCS:
+            r = impl.run(dict(CFG_DEFAULT, iw=False, validator=v), dump('json', doc))
+            if 'fault' not in r['outcome']:
+                bad['%s %s' % (v, json.dumps(doc))] = dict(r['outcome'], what=r.get('leak'))
+    return bad
+
+
 def measure_facts():
     f, obs = {}, {}
+    o = _probe_retag()
+    obs['retagSubclassChecked'] = o
+    f['retagSubclassChecked'] = o == {}
+    o = _probe_chunks()
+    obs['bytesJoinBeforeEncode'] = o
+    f['bytesJoinBeforeEncode'] = o == CHUNK_EXPECTED
     bt, bp, ub, bobs = _probe_mp_tables()
     f['mpBytesTable'], obs['mpBytesTable'] = bt, bt
     f['mpBoolPassThrough'], obs['mpBoolPassThrough'] = bp, bobs
@@ -1587,7 +1681,8 @@ def facts_lean(f):
     b = lambda x: 'true' if x else 'false'
     lines = ['  occCount := .%s' % f['occCount']]
     for k in ['mpNameAnyKey', 'nullComplexIsNone', 'repeatedScalarFault', 'leafKindFault', 'boolCoerced', 'utf8Fault',
-              'jsonNullDateOk', 'intFromFloat', 'nativeKindFault', 'binKindFault', 'rawBytesKindFault', 'nestedArrayOk', 'binTextValidated', 'parseErrorsFault', 'missingBodyFault', 'guardPathLocal', 'fileFormValidated']:
+              'jsonNullDateOk', 'intFromFloat', 'nativeKindFault', 'binKindFault', 'rawBytesKindFault', 'nestedArrayOk', 'binTextValidated', 'parseErrorsFault', 'missingBodyFault', 'guardPathLocal', 'fileFormValidated',
+              'bytesJoinBeforeEncode', 'retagSubclassChecked']:
         lines.append('  %s := %s' % (k, b(f[k])))
     pl = lambda l: '[' + ', '.join('(%s, %s)' % (b(x), b(y)) for x, y in l) + ']'
     lines.append('  mpBytesTable := %s' % pl(f['mpBytesTable']))
@@ -1605,6 +1700,7 @@ SWITCH_PROPS = {
     'mpNameAnyKey': {'C02', 'C05', 'C10', 'C04'}, 'binTextValidated': {'C05'}, 'parseErrorsFault': {'C10'}, 'missingBodyFault': {'C04', 'C05', 'C10'},
     'guardPathLocal': {'C02'}, 'fileFormValidated': {'C04'},
     'mpBoolPassThrough': {'C04', 'C05', 'C10'}, 'tableUtf8Fault': {'C04', 'C05', 'C10'},
+    'bytesJoinBeforeEncode': {'C02'}, 'retagSubclassChecked': {'C04'},
 }
 
 
@@ -1619,10 +1715,11 @@ def t1(ctx):
                 ctx.hit('fact-bad:' + k)
                 wit = {'guardPathLocal': ALIAS_WITNESS, 'fileFormValidated': FILE_WITNESS_DOCS,
                        'mpBoolPassThrough': 'f(b: Boolean) <- {b"f": {b"b": w}} for w in %r, validator=soft, every (raw, use_bin_type)' % (BOOL_FOREIGN,),
-                       'tableUtf8Fault': 'f(d: Date) <- {b"f": {b"d": b"\\xff\\xfe"}}, validator=soft, raw=True, use_bin_type=False'}[k]
+                       'tableUtf8Fault': 'f(d: Date) <- {b"f": {b"d": b"\\xff\\xfe"}}, validator=soft, raw=True, use_bin_type=False',
+                       'bytesJoinBeforeEncode': CHUNK_WITNESS, 'retagSubclassChecked': RETAG_WITNESS_DOCS}[k]
                 ctx.finding('switch:%s=%s' % (k, f[k]), FACT_WHAT[k],
                             {'op': 'probe', 'fact': k, 'measured': f[k], 'observed': obs[k],
-                             'expected': ALIAS_EXPECTED if k == 'guardPathLocal' else 'a Client fault for every document',
+                             'expected': {'guardPathLocal': ALIAS_EXPECTED, 'bytesJoinBeforeEncode': CHUNK_EXPECTED}.get(k, 'a Client fault for every document'),
                              'witness': wit})
                 continue
             args, cfg, doc = FACT_WITNESS[k][:3]
@@ -1988,6 +2085,10 @@ def part_c02(ctx, ncases=None, seed_cases=True):
                 rv_sent, rv = rva, strip_ids(rva)
             else:
                 rv_sent = rv
+            # byte values of the result are presented in several chunks (below the model: the value is the concatenation)
+            rv_sent = chunkify(rng, rv_sent)
+            if rv_sent != rv and strip_ids(rv_sent) == rv and rva is None:
+                ctx.hit('chunked-bytes-in-result')
             nat = c.B.native(ret_ty, rv_sent)
             for cfg in ALL_CFGS:
                 if cfg['cas'] == 'list' and not fully_populated(args):
@@ -2091,6 +2192,7 @@ def part_c02(ctx, ncases=None, seed_cases=True):
                      'ret_ty': c.sig['ret'], 'returned': r.get('ret_val')})
     part_alias(ctx)
     part_poly(ctx)
+    probe_empty_chunks(ctx)
     part_codec(ctx)
     ctx.cov['rule'] = ('cases = generated class universes (depth <= 4, inheritance, wrapped arrays, repeated members, facets) x '
                        'conformant argument tuples (boundary biased, None at optional positions) x 32 configurations x key '
@@ -2132,12 +2234,36 @@ def set_node(v, path, new):
 
 
 def strip_ids(v):
-    """the same value built from distinct objects"""
+    """the value itself: without object identities ("id") and without the chunking of byte values ("chunks")"""
     if isinstance(v, dict):
         if 'o' in v:
             return {'o': [v['o'][0], [[n, strip_ids(x)] for n, x in v['o'][1]]]}
         if 'l' in v:
             return {'l': [strip_ids(x) for x in v['l']]}
+        if 'x' in v:
+            return {'x': v['x']}
+    return v
+
+
+def chunkify(rng, v, p=0.6):
+    """present the byte values of a result in several chunks (empty chunks, boundaries that are no multiples of 3)"""
+    if isinstance(v, dict):
+        if 'o' in v:
+            return dict(v, o=[v['o'][0], [[n, chunkify(rng, x, p)] for n, x in v['o'][1]]])
+        if 'l' in v:
+            return dict(v, l=[chunkify(rng, x, p) for x in v['l']])
+        if 'x' in v and rng.random() < p:
+            n, cuts, i = len(v['x']), [], 0
+            while i < n:
+                k = rng.choice([0, 1, 1, 2, 2, 3, 4, 5, 7])
+                k = min(k, n - i)
+                cuts.append(k)
+                i += k
+            if rng.random() < 0.3:
+                cuts.append(0)
+            if not cuts:
+                cuts = rng.choice([[0], [0, 0]])        # (the empty sequence of chunks: probe_empty_chunks)
+            return dict(v, chunks=cuts, tuple=rng.random() < 0.3)
     return v
 
 
@@ -2201,6 +2327,33 @@ def alias_universe(rng):
     return U, cd, pair
 
 
+def probe_empty_chunks(ctx):
+    """the empty byte string given as an empty sequence of chunks (`[]`, `()`), for base64 / hex / urlsafe members"""
+    B = Builder()
+    B.register([{'name': 'Blob', 'ns': TNS, 'base': None, 'fields': CHUNK_TY['fields']}])
+    impl = Impl(B, {'args': [], 'ret': CHUNK_TY})
+    for tup in (False, True):
+        rv = {'o': ['Blob', [[n, {'x': [], 'chunks': [], 'tuple': tup}] for n in ('b0', 'b1', 'b2')]]}
+        for proto in ('json', 'yaml', 'msgpack'):
+            cfg = dict(CFG_DEFAULT, proto=proto)
+            doc = {b'f': {}} if proto == 'msgpack' else {'f': {}}
+            r = impl.run(cfg, dump(proto, doc), ret=B.native(CHUNK_TY, rv))
+            ctx.case({'empty-chunks': proto, 'tuple': tup}, True)
+            ok = False
+            if not r.get('resp_crash') and r['out'] is not None:
+                try:
+                    ok = ref_response(cfg, 'f', CHUNK_TY, load(proto, r['out']), None) == strip_ids(rv)
+                except (RefError, ValueError):
+                    ok = False
+            ctx.hit('empty-chunk-sequence:%s:%s' % (proto, 'ok' if ok else 'fail'))
+            if not ok:
+                ctx.finding('response:crash:bytearray-empty-chunk-sequence',
+                            'a ByteArray result that is an empty sequence of chunks (the empty byte string) cannot be written: %s'
+                            % (r.get('where') or r.get('resp_crash') or 'response differs'),
+                            {'op': 'response', 'cfg': cfg, 'ty': CHUNK_TY, 'returned': rv,
+                             'reg': [{'name': 'Blob', 'ns': TNS, 'base': None, 'fields': CHUNK_TY['fields']}], 'where': r.get('where')})
+
+
 def part_alias(ctx, ncases=None):
     """results that reference one object from several positions: members of one object, slots of one array, cousins.
     T3: the response is the one written for the same value built from distinct objects (control), and it decodes to the
@@ -2251,6 +2404,7 @@ def part_alias(ctx, ncases=None):
                 if rva is None:
                     ctx.hit('alias:no-positions')
                     continue
+                rva = chunkify(rng, rva)
                 plain = strip_ids(rva)
                 nali += 1
                 for cfg in (ALL_CFGS if ctx.thorough else rng.sample(ALL_CFGS, 12)):
@@ -2276,8 +2430,9 @@ def part_alias(ctx, ncases=None):
                     if not same_doc(out1, out0):
                         ctx.hit('t3-fail:alias:' + kind)
                         ctx.finding('response:aliasing-changes-document:%s:%s' % (kind, fam),
-                                    'the response for a result that references one object from two positions (%s) differs from '
-                                    'the response for the same value built from distinct objects' % kind,
+                                    'the response for a result that references one object from two positions (%s) and / or gives byte '
+                                    'values in several chunks differs from the response for the same value built from distinct objects '
+                                    'with single-chunk byte values' % kind,
                                     dict(rep, response_doc=doc_to_json(out1), control_doc=doc_to_json(out0)))
                         continue
                     # ---- T3: the response decodes to the returned value
@@ -2385,6 +2540,39 @@ def part_t3_extra_leaves(ctx):
                 ctx.finding('extra-leaf:response:%s:%s' % (fam, ','.join(bad)),
                             'Decimal/Double/Uuid/Integer results do not decode to the returned value',
                             {'op': 'extra', 'cfg': cfg, 'returned': rv, 'decoded': back})
+    # ---- Decimal(total_digits, fraction_digits): values that use every digit, with and without sign and fraction, arrive.
+    # (the length guard max_str_len = total_digits + 2 has to leave room for the sign and the separator)
+    nd = 0
+    for td, fd in ((7, 2), (5, 1), (4, 0), (10, 4), (3, 3), (2, 1), (18, 9)):
+        c = FixedCase([['d', {'k': 'dec', 'td': td, 'fd': fd, 'occ': occ()}]])
+        ip, top = '9' * (td - fd), '9' * (td - fd) + ('.' + '9' * fd if fd else '')
+        rnd = lambda n: ''.join(rng.choice('123456789') for _ in range(n))
+        mags = {top, (rnd(td - fd) or '0') + ('.' + rnd(fd) if fd else ''), (ip[:-1] or '0') + ('.' + rnd(fd) if fd else ''),
+                (rnd(td - fd) or '0') + ('.' + rnd(max(fd - 1, 0)) if fd > 1 else ''), '1' if td > fd else '0.' + '0' * (fd - 1) + '1', '0'}
+        for mag in sorted(mags):
+            for sign in ('', '-'):
+                v = sign + mag
+                if decimal.Decimal(v) == 0 and sign:
+                    continue
+                args = {'o': ['f', [['d', {'dec': str(decimal.Decimal(v))}]]]}
+                for cfg in ALL_CFGS:
+                    if cfg['cas'] == 'list':
+                        continue
+                    doc = ref_request(cfg, 'f', c.in_ty, args, None, bytes_keys=cfg['proto'].startswith('msgpack'))
+                    r = c.impl.run(cfg, dump(cfg['proto'], doc))
+                    nd += 1
+                    fam = 'msgpack' if cfg['proto'].startswith('msgpack') else cfg['proto']
+                    ctx.case({'dec-digits': cfg_key(cfg), 'td': td, 'fd': fd, 'v': v}, True)
+                    ctx.hit('dec-digits:%s:%s' % ('neg' if sign else 'pos', next(iter(r['outcome']))))
+                    if r['outcome'] != {'ok': args}:
+                        # (-0.999 for Decimal(3, 3): the leading zero of the canonical form does not fit -- known, see fixes)
+                        lead0 = sign and td == fd
+                        ctx.finding('extra-leaf:decimal-digits:leading-zero' if lead0 else
+                                    'extra-leaf:decimal-digits:%s:%s' % (fam, next(iter(r['outcome']))),
+                                    'a Decimal(%d, %d) argument that uses all declared digits (%s) is not delivered' % (td, fd, v),
+                                    {'op': 'decdigits', 'cfg': cfg, 'td': td, 'fd': fd, 'value': v, 'observed': r['outcome'],
+                                     'where': r.get('where'), 'faultcode': r.get('faultcode')})
+    ctx.cov['t3_decimal_digits'] = nd
     # D16: a JSON number where a Decimal is declared
     for cfg in ALL_CFGS:
         if cfg['cas'] == 'list' or not cfg['iw']:
@@ -2410,7 +2598,7 @@ def replay(ctx, obj):
             bt, bp, ub, bobs = _probe_mp_tables()
             o = {'from_bytes table selected by (raw, use_bin_type)': bt, 'Boolean passed through': bobs, 'undecodable date bytes': ub}
         else:
-            o = _probe_alias() if obj['fact'] == 'guardPathLocal' else _probe_file()
+            o = {'guardPathLocal': _probe_alias, 'bytesJoinBeforeEncode': _probe_chunks, 'retagSubclassChecked': _probe_retag}.get(obj['fact'], _probe_file)()
         print('witness :', json.dumps(obj.get('witness'))[:600])
         print('impl    :', o)
         print('expected:', obj.get('expected'))
@@ -2436,6 +2624,8 @@ def replay(ctx, obj):
             print('impl  :', r['outcome'], r.get('where'))
             body, _ = request_body(cfg, load_as_server(cfg, data))
             mty = file_model_ty(obj['ty'])
+            if any(c.get('attrs_of') for c in reg):
+                reg = model_registry(reg)
             if mty != obj['ty']:
                 # File members: the model reads their object form as the class FileValue (plain-bytes form: T3 only)
                 reg = [FILE_VALUE_DEF] + [dict(c, fields=file_model_ty(dict(c, k='obj'))['fields']) for c in reg]
@@ -2489,6 +2679,47 @@ def replay(ctx, obj):
                                                                            bytes_keys=cfg['proto'].startswith('msgpack'))
         r = impl.run(cfg, dump(cfg['proto'], doc))
         print('impl  :', r['outcome'], r.get('where'))
+        return 0
+    if op == 'history':
+        def strip(x):
+            if isinstance(x, dict):
+                return {k: strip(v) for k, v in x.items()}
+            if isinstance(x, list):
+                return [strip(v) for v in x if not (isinstance(v, list) and len(v) == 2 and v[0] == 'zz_appended')]
+            return x
+        reg0 = [strip(c) for c in obj['reg'] if c['name'] != 'Late']
+        B = Builder()
+        B.register(reg0)
+        B.universe_fields = {c['name']: c['fields'] for c in obj['reg']}
+        impl = Impl(B, {'args': strip(obj['ty'])['fields'], 'ret': {'k': 'int', 'occ': occ()}})
+        cfg = obj['cfg']
+        mp = cfg['proto'].startswith('msgpack')
+        K = (lambda n: n.encode('utf8')) if mp else (lambda n: n)
+        warm = {K('one'): {K(obj['base']): {}}}
+        warm = [0, 1, 'f', {K('f'): warm}] if cfg['proto'] == 'msgpackrpc' else {K('f'): warm}
+        print('1. warm   :', impl.run(cfg, dump(cfg['proto'], warm))['outcome'])
+        B.obj_class(dict(strip(obj['late']), k='obj'))
+        print('2. defined: class Late(%s)' % obj['base'])
+        if obj['step'] == 'member-appended-late':
+            from spyne.model.primitive import Unicode
+            B.classes[obj['base']].append_field('zz_appended', Unicode)
+            print('3. %s.append_field("zz_appended", Unicode)' % obj['base'])
+        data = dump(cfg['proto'], json_to_doc(obj['doc']))
+        r = impl.run(cfg, data)
+        print('request  :', data[:300])
+        print('impl     :', json.dumps(r['outcome'])[:300], r.get('where') or '', r.get('faultcode') or '')
+        body, _ = request_body(cfg, load(cfg['proto'], data))
+        print('model    :', json.dumps(ctx.model([{'op': 'request', 'cfg': cfg, 'reg': obj['reg'], 'ty': obj['ty'], 'doc': doc_to_json(body)}], driver='C02')[0])[:300])
+        return 0
+    if op == 'decdigits':
+        c = FixedCase([['d', {'k': 'dec', 'td': obj['td'], 'fd': obj['fd'], 'occ': occ()}]])
+        cfg = obj['cfg']
+        args = {'o': ['f', [['d', {'dec': str(decimal.Decimal(obj['value']))}]]]}
+        data = dump(cfg['proto'], ref_request(cfg, 'f', c.in_ty, args, None, bytes_keys=cfg['proto'].startswith('msgpack')))
+        r = c.impl.run(cfg, data)
+        print('type   : Decimal(%d, %d)' % (obj['td'], obj['fd']))
+        print('request:', data[:200])
+        print('impl   :', r['outcome'], r.get('faultcode') or '', r.get('where') or '')
         return 0
     if op == 'range':
         c = FixedCase([['v', obj['ty']]])
@@ -2586,12 +2817,84 @@ def part_c04(ctx):
                                     {'op': 'request', 'cfg': cfg, 'ty': c.in_ty, 'reg': c.U.registry(), 'doc': doc_to_json(doc),
                                      'observed': r['outcome'], 'leak': r.get('leak')})
     B_mut.run('hier.request-retagged')
+    part_c04_attrs(ctx)
     part_c04_leaves(ctx)
     part_c04_file(ctx)
     ctx.cov['c04_hier_rule'] = ('valid requests of generated signatures with inheritance x 32 configurations, each retagged with '
                                 'class names of the interface at every wrapper position and mutated by kind swaps; the oracle '
                                 'walks the captured argument tree (isinstance of the declared native type / class / subclass)')
     ctx.cov['c04_hier_leaks_under_soft'] = nleak
+
+
+def part_c04_attrs(ctx):
+    """wrapper retagging in a universe where the subclass list of the declared class holds unrelated classes: X's Attributes
+    class derives from D.Attributes (D <- S1 <- S2), so X.get_subclasses() lists S1 and S2. Every wrapper position is retagged
+    with every class name; T3 = the captured arguments are instances of the declared classes (an `obj:` leak counts under any
+    validator), T2 = the model with a placeholder subclass for X (see model_registry)."""
+    rng = ctx.rng
+    B_at = Batch(ctx)
+    classes = attrs_universe()
+    by = {c['name']: c for c in classes}
+    oty = lambda n, o=None: dict({k: v for k, v in by[n].items() if k != 'attrs_of'}, k='obj', occ=o or occ())
+    holder = {'name': 'AHolder', 'ns': TNS, 'base': None,
+              'fields': [['h0_d', oty('D')], ['h1_x', oty('X')], ['h2_xs', {'k': 'arr', 'member': 'm', 'elem': oty('X', occ(True, 0, 1)), 'occ': occ()}]]}
+    classes = classes + [holder]
+    by['AHolder'] = holder
+    U = Universe.__new__(Universe)
+    U.rng, U.classes, U.by_name, U.facets, U.rep, U.kinds = rng, classes, by, False, True, None
+    B = Builder()
+    B.register(classes)
+    B.universe_fields = {c['name']: c['fields'] for c in classes}
+    sig = {'args': [['a_d', oty('D')], ['b_x', oty('X')], ['c_xs', holder['fields'][2][1]], ['d_hold', oty('AHolder')]],
+           'ret': {'k': 'int', 'occ': occ()}}
+    impl = Impl(B, sig)
+    in_ty = impl.in_ty()
+    reg = model_registry(classes)
+    names = ['S1', 'S2', 'D', 'Y', 'X', 'Nope']
+    nleak = 0
+    for vi in range(6 if ctx.thorough else 2):
+        x = lambda: gen_one(rng, oty('X'), U, 0.0)
+        d = lambda: gen_poly_value(rng, oty('D'), U)
+        args = {'o': ['f', [['a_d', d()], ['b_x', x()], ['c_xs', {'l': [x() for _ in range(rng.choice([1, 2]))]}],
+                            ['d_hold', {'o': ['AHolder', [['h0_d', d()], ['h1_x', x()], ['h2_xs', {'l': [x()]}]]]}]]]}
+        for proto in PROTOS:
+            for validator in (None, 'soft'):
+                cfg = {'proto': proto, 'validator': validator, 'iw': False, 'cas': 'dict', 'poly': rng.random() < 0.5}
+                mp = proto.startswith('msgpack')
+                doc0 = ref_request(cfg, 'f', in_ty, args, U, bytes_keys=mp)
+                rt = retags(doc0, names)
+                rng.shuffle(rt)
+                muts = [(doc0, 'valid')] + [(set_at(deep(doc0), path, deep(node)), 'retag') for path, node in rt[:40 if ctx.thorough else 24]]
+                # a subclass of D with its own members where X is declared (what a client of D would send)
+                s1 = ref_encode(cfg, oty('D'), gen_one(rng, oty('S1'), U, 0.0), U, bytes_keys=mp)
+                for path in [p_ for p_ in paths(doc0) if isinstance(get_at(doc0, p_), dict) and len(get_at(doc0, p_)) == 1
+                             and next(iter(get_at(doc0, p_))) in ('X', b'X')]:
+                    muts.append((set_at(deep(doc0), path, deep(s1)), 'foreign-subclass'))
+                for doc, tag in muts:
+                    try:
+                        data = dump(proto, doc)
+                        parsed = load(proto, data)
+                    except Exception:
+                        continue
+                    r = impl.run(cfg, data)
+                    kind = next(iter(r['outcome']))
+                    fam = 'msgpack' if mp else proto
+                    ctx.case({'c04attrs': cfg_key(cfg), 'doc': doc_to_json(parsed)}, True)
+                    ctx.hit('c04:attrs:%s:%s' % (tag, kind))
+                    body, ok = request_body(cfg, parsed)
+                    if ok and spyne_parses(cfg, data):
+                        B_at.add({'op': 'request', 'cfg': cfg, 'reg': reg, 'ty': in_ty, 'doc': doc_to_json(body)}, r['outcome'])
+                    if kind == 'leak' and (validator == 'soft' or r.get('leak', '').startswith('obj:')):
+                        nleak += 1
+                        ctx.finding('c04:leak:%s:wrapper-key:%s' % (fam, r.get('leak', '?')),
+                                    'a wrapper key made user code receive an instance that is not of the declared class (%s)' % r.get('leak'),
+                                    {'op': 'request', 'cfg': cfg, 'ty': in_ty, 'reg': classes, 'doc': doc_to_json(doc),
+                                     'observed': r['outcome'], 'leak': r.get('leak'), 'mutation': tag})
+    B_at.run('hier.request-attrs')
+    ctx.cov['c04_attrs_leaks'] = nleak
+    ctx.cov['c04_attrs_rule'] = ('D <- S1 <- S2, Y, X with `class Attributes(D.Attributes)`; f(D, X, Array(X), Holder{D, X, Array(X)}), '
+                                 'ignore_wrappers=False x 4 protocols x validator: every wrapper position retagged with every class name, '
+                                 'X positions replaced by a whole S1 document')
 
 
 def part_c04_leaves(ctx):
@@ -3326,6 +3629,8 @@ def poly_cases(ctx, pre, ncases):
         except (ValueError, AssertionError):
             continue
         in_ty = impl.in_ty()
+        # (the history step below changes the class definitions in place: queries keep snapshots)
+        snap = json.loads(json.dumps({'reg': U.registry(), 'in_ty': in_ty, 'ret': ret}))
         # members are listed ancestors first
         for cd in U.classes:
             if cd['base']:
@@ -3349,7 +3654,7 @@ def poly_cases(ctx, pre, ncases):
                 continue
             args = {'o': ['f', [['cust', cu], ['hold', hold], ['many', many], ['one', one]]]}
             rv = many if ret is arr else hold if ret is ht else one
-            nat = B.to_native(ret, rv)
+            nat = B.native(ret, chunkify(rng, rv))
             for proto in PROTOS:
                 for poly in (True, False):
                     for validator in (None, 'soft'):
@@ -3359,7 +3664,7 @@ def poly_cases(ctx, pre, ncases):
                         data = dump(proto, doc)
                         r = impl.run(cfg, data, ret=nat)
                         body, _ = request_body(cfg, load(proto, data))
-                        B_req.add({'op': 'request', 'cfg': cfg, 'reg': U.registry(), 'ty': in_ty, 'doc': doc_to_json(body)}, r['outcome'])
+                        B_req.add({'op': 'request', 'cfg': cfg, 'reg': snap['reg'], 'ty': snap['in_ty'], 'doc': doc_to_json(body)}, r['outcome'])
                         ctx.case({pre: cfg_key(cfg), 'args': args}, True)
                         ctx.hit('%s:request:%s:poly=%s:%s' % (pre, fam, poly, next(iter(r['outcome']))))
                         # the receiver reconstructs the same subclass (wrapper keys select the class with or without
@@ -3380,7 +3685,7 @@ def poly_cases(ctx, pre, ncases):
                                         {'op': 'response', 'cfg': cfg, 'ty': ret, 'reg': U.registry(), 'returned': rv})
                             continue
                         out = load(proto, r['out'])
-                        B_resp.add({'op': 'response', 'cfg': cfg, 'reg': U.registry(), 'ty': ret, 'val': rv, 'method': 'f'},
+                        B_resp.add({'op': 'response', 'cfg': cfg, 'reg': snap['reg'], 'ty': snap['ret'], 'val': rv, 'method': 'f'},
                                    {'ok': doc_to_json(out)})
                         try:
                             back = ref_response(cfg, 'f', ret, out, U)
@@ -3397,8 +3702,62 @@ def poly_cases(ctx, pre, ncases):
                                         'non-polymorphic response does not carry exactly the declared members',
                                         {'op': 'response', 'cfg': cfg, 'ty': ret, 'reg': U.registry(), 'returned': rv,
                                          'decoded': back, 'expected': expect, 'response_doc': doc_to_json(out)})
+        poly_history(ctx, pre, rng, U, B, impl, in_ty, base, bt, B_req)
     B_req.run('hier.request-' + pre)
     B_resp.run('hier.response-' + pre)
+
+
+def poly_history(ctx, pre, rng, U, B, impl, in_ty, base, bt, B_req):
+    """history: the class tree is warm (requests were served, subclass lists and flat member tables are memoised). Then a new
+    subclass of the base is defined, and after that a member is appended to the base; requests that use them go to the SAME
+    application. Nothing that clears spyne's memos as a side effect (customize, Array) happens in between."""
+    steps = []
+    late = {'name': 'Late', 'ns': TNS, 'base': base['name'],
+            'fields': list(base['fields']) + [['late_f0', gen_leaf(rng, rng.choice(['int', 'str', 'bool']), occ(), facets=False)]]}
+    U.classes.append(late)
+    U.by_name['Late'] = late
+    B.obj_class(dict(late, k='obj'))
+    B.universe_fields['Late'] = late['fields']
+    steps.append('subclass-defined-late')
+    for step in ('subclass-defined-late', 'member-appended-late'):
+        if step == 'member-appended-late':
+            from spyne.model.primitive import Unicode
+            n0 = len(base['fields'])
+            extra = ['zz_appended', dict(STR_PLAIN)]
+            B.classes[base['name']].append_field('zz_appended', Unicode)
+            for cd in [base] + U.subclasses(base['name']):
+                cd['fields'].insert(n0, extra)
+        for vi in range(2):
+            try:
+                lv = lambda: gen_one(rng, U.obj_ty(late, occ()), U, 0.1)
+                pv = lambda: gen_poly_value(rng, bt, U)
+                lst = {'l': [lv(), pv()] if vi else [pv(), lv(), lv()]}
+                hold = {'o': ['Holder', [['h0_plain', lv()], ['h1_mand', pv() if vi else lv()], ['h2_many', lst], ['h3_rep', {'l': [lv()]}]]]}
+                args = {'o': ['f', [['cust', lv() if vi else pv()], ['hold', hold], ['many', lst], ['one', lv()]]]}
+            except Unsat:
+                continue
+            if any(x is None for x in [args['o'][1][0][1], args['o'][1][3][1], hold['o'][1][0][1], hold['o'][1][1][1]] + lst['l']):
+                continue
+            for proto in PROTOS:
+                for validator in (None, 'soft'):
+                    cfg = {'proto': proto, 'validator': validator, 'iw': False, 'cas': 'dict', 'poly': True}
+                    fam = 'msgpack' if proto.startswith('msgpack') else proto
+                    doc = ref_request(cfg, 'f', in_ty, args, U, bytes_keys=proto.startswith('msgpack'))
+                    data = dump(proto, doc)
+                    r = impl.run(cfg, data)
+                    body, _ = request_body(cfg, load(proto, data))
+                    reg = json.loads(json.dumps(U.registry()))
+                    B_req.add({'op': 'request', 'cfg': cfg, 'reg': reg, 'ty': json.loads(json.dumps(in_ty)), 'doc': doc_to_json(body)}, r['outcome'])
+                    ctx.case({pre + '-history': step, 'cfg': cfg_key(cfg), 'args': args}, True)
+                    ctx.hit('%s:history:%s:%s:%s' % (pre, step, fam, next(iter(r['outcome']))))
+                    if r['outcome'] != {'ok': args}:
+                        ctx.finding('%s:history:%s:%s:%s' % (pre, step, fam, next(iter(r['outcome']))),
+                                    'after the class tree was used, %s: a request that uses it is not delivered as sent'
+                                    % ('a new subclass of the declared base was defined' if step.startswith('subclass')
+                                       else 'a member was appended to the declared base (ComplexModel.append_field)'),
+                                    {'op': 'history', 'step': step, 'cfg': cfg, 'ty': json.loads(json.dumps(in_ty)), 'reg': reg, 'base': base['name'],
+                                     'late': late, 'args': args, 'doc': doc_to_json(doc), 'observed': r['outcome'], 'where': r.get('where'),
+                                     'faultcode': r.get('faultcode')})
 
 
 def strip_to_declared(t, v, U):
